@@ -117,6 +117,13 @@ def parse(line):
 
 
 def in_domain(scripts):
+    """the histories the monitor judges = History.Domain2 of the model: callbacks remove and add (no nested notify).
+    An add issued from inside a delivery round registers nothing (trackable.cc: `if (!clearing_)`; the statement is
+    read as 'what the call registered', see exactly_once_wide / add_in_round_witness)"""
+    return all(b[0] in ("r", "a") for body in scripts for b in body)
+
+
+def in_narrow_domain(scripts):
     return all(b[0] == "r" for body in scripts for b in body)
 
 
@@ -160,7 +167,7 @@ def monitor(line, out, stats=None):
         return None if out == "parse-error" else "malformed history answered with " + out[:60]
     scripts, ops = h
     if not in_domain(scripts):
-        return None  # outside the property's quantifier (add inside a round): correspondence only
+        return None  # outside the property's quantifier (nested notify inside a round): correspondence only
     if out.startswith("CRASH"):
         return "the library crashed / a sanitizer fired where the property promises a safe delivery round: " + out[:300]
     toks = out.split()
@@ -230,6 +237,9 @@ def monitor(line, out, stats=None):
                 pos += 1
                 bump("deliveries")
                 for b in (scripts[k] if k < len(scripts) else []):
+                    if b[0] == "a":
+                        bump("inround_add_ignored")     # registers nothing: must never be delivered
+                        continue
                     hit = next((x for x in lst if x[1] == b[1]), None)
                     if hit is None:
                         bump("inround_remove_unmatched")
@@ -554,7 +564,9 @@ def correspondence(ctx):
     lens = [len(l.split()) for l in gen]
     stats.update({"corpus_histories": len(corpus), "generated_histories": len(gen), "edge_histories": len(edge),
                   "long_list_histories": len(big), "malformed_lines": len(MALFORMED),
-                  "out_of_domain_histories(add in round; correspondence only)":
+                  "histories_with_add_in_round(judged with the round-aware reading: such an add registers nothing)":
+                      sum(1 for l in lines if (parse(l) and not in_narrow_domain(parse(l)[0]))),
+                  "out_of_domain_histories(correspondence only)":
                       sum(1 for l in lines if (parse(l) and not in_domain(parse(l)[0]))),
                   "words_per_history_min_avg_max": [min(lens), round(sum(lens) / len(lens), 1), max(lens)],
                   "distinct_histories": len(set(lines))})
@@ -669,7 +681,7 @@ def replay(ctx, path):
             print("model and implementation differ (the statement itself is not violated on this input)")
             rc = 1
         elif parse(l) and not in_domain(parse(l)[0]):
-            print("ok: implementation == model (history outside C16's domain — add inside a round — so the "
+            print("ok: implementation == model (history outside C16's domain — nested notify inside a round — so the "
                   "statement does not apply)")
         else:
             print("ok: implementation == model, statement holds")
